@@ -4,6 +4,7 @@ import Driver.InfoModel
 import Driver.V5
 import Driver.Json
 import Driver.CacheFile
+import Driver.Sflow
 open Driver Vflow
 
 /-- driver state: one model template cache per protocol, reset by `new` -/
@@ -35,6 +36,8 @@ def handle (st : DState) (line : String) : DState × String :=
       let c := CacheFile.loadDoc d
       (if p == "ipfix" then { st with ipfix := c } else { st with nf9 := c }, "loaded " ++ listCache c)
   | ["elem", p, i] => (st, elemLine p i)
+  | ["sflow", f, d] => (st, sflowLine f d)
+  | ["dissect", p, h] => (st, dissectLine p h)
   | _ => (st, "bad-op")
 
 partial def loop (h : IO.FS.Stream) (out : IO.FS.Stream) (st : DState) : IO Unit := do
